@@ -175,6 +175,13 @@ def run(R):
                descr="upgrade installs the new definition only after the old one was uninstalled (a service whose definition is gone — removed — is not brought back)")
         R.gate("C19.upgrade.version", upg, CallSink(SSA + "set_version"), [[g_inst]],
                descr="the new version is recorded only after the new definition was installed", min_sinks=1)
+        # ... and always then: once the new definition is installed, every normal return (also "upgraded but not started") has
+        # recorded the new version — the registry must describe what is installed
+        n_i, acc_i, _ = g_inst.edges(upg)
+        if acc_i:
+            from rules import final_edges as _fe
+            R.must_pass("C19.upgrade.version.always", upg, [("set_version(target)", CallSink(SSA + "set_version"))], from_blocks=tuple(d for _, d in _fe(cfg_of(upg), acc_i)),
+                        descr="after the new definition was installed every outcome records the new version")
         from rules import FieldBoolGuard
         done = AggSink("ant_service_management::UpgradeResult", "Upgraded")
         forced = AggSink("ant_service_management::UpgradeResult", "Forced")
